@@ -13,11 +13,11 @@ TB = ("Trusted: go/types + go/ssa (x/tools v0.29.0); the neo-go compiler maps th
 P = {
  "C01": ("other",
          "abstract interpretation (CNF must-fact dataflow over inlined SSA) + term agreement of legs/supply/notifications + who-may-write over key families",
-         "Decides, for all inputs and all paths of every Balance method, the step obligations of the inductive argument behind 'supply = sum of balances, no negative balance': single writers of the account family and the supply key; debit = loaded(from).Balance - amount (or delete when equal), credit = loaded(to).Balance + amount with the same amount term; Mint/Burn move the supply by exactly that amount (Burn under supply >= amount); amount >= 0 and Balance >= amount established at the stores; credit loaded after the debit store (self-transfer); refusal leaves no effect; exactly one Transfer/TransferX with the legs' arguments and no other emitter. This is a sound structural necessary condition for every history, not an execution of histories, hence 'other'. Added by the mutation sweep: both legs executed exactly for 20-byte addresses at every success exit, supply written on every return of Mint/Burn, stored-or-default loaders. Round 8: no package-level struct variable is handed out (neo-go structs are references).",
+         "Decides, for all inputs and all paths of every Balance method, the step obligations of the inductive argument behind 'supply = sum of balances, no negative balance': single writers of the account family and the supply key; debit = loaded(from).Balance - amount (or delete when equal), credit = loaded(to).Balance + amount with the same amount term; Mint/Burn move the supply by exactly that amount (Burn under supply >= amount); amount >= 0 and Balance >= amount established at the stores; credit loaded after the debit store (self-transfer); refusal leaves no effect; exactly one Transfer/TransferX with the legs' arguments and no other emitter. This is a sound structural necessary condition for every history, not an execution of histories, hence 'other'. Added by the mutation sweep: both legs executed exactly for 20-byte addresses at every success exit, supply written on every return of Mint/Burn, stored-or-default loaders. Round 8: no package-level struct variable is handed out (neo-go structs are references). Round 10: upgrade rules of Balance (C16) and stored layout of its records decided here as well.",
          "§5 C01"),
  "C02": ("other",
          "abstract interpretation: entailment of (not executed or witness-of-account or caller-is-account or Alphabet) at every site that can lower a balance",
-         "For every store/delete of an account record in every Balance method the exit facts entail: not executed, or the witness of the account keyed by that record, or the caller being it, or the Alphabet 2/3+1 multisignature; a credit is exempt only where amount >= 0 is established; the public transfer executes no effect on a path returning false. Holds for every argument tuple because every path is covered; signer sets at run time are not enumerated, hence 'other'. Round 9: CheckWitness is asked about a caller-supplied address only with its length established (a refusal is reported, not a fault).",
+         "For every store/delete of an account record in every Balance method the exit facts entail: not executed, or the witness of the account keyed by that record, or the caller being it, or the Alphabet 2/3+1 multisignature; a credit is exempt only where amount >= 0 is established; the public transfer executes no effect on a path returning false. Holds for every argument tuple because every path is covered; signer sets at run time are not enumerated, hence 'other'. Round 9: CheckWitness is asked about a caller-supplied address only with its length established (a refusal is reported, not a fault). Round 10: upgrade rules of Balance (C16) decided here as well.",
          "§5 C02"),
  "C03": ("proof",
          "abstract interpretation: CNF must-fact dataflow over the fully inlined SSA graph of every ABI method; entailment of (effect not executed or required witness) at every normal exit",
@@ -25,15 +25,15 @@ P = {
          "§5 C03, App. A"),
  "C04": ("other",
          "storage-layout analysis over canonical key terms (who-may-delete, writer/remover agreement, paired indices) + must-facts for tombstone/existence guards + exit-fact equivalence of notification and state change",
-         "Decides for all paths: registry key = 'x'||sha256(blob) with the blob stored; put reachable only with the tombstone read absent, delete writes it, nothing deletes tombstones (the migration is shown harmless by key-length facts); every id-keyed family a put can populate (x, o, eACL, nnsHasAlias, m) is removed by Delete with the same id on every effectful path, the NNS record cleanup is attempted whenever the alias is removed, alias entry and NNS record are written together; owner index component produced by the same function at put and delete time; getters return only for live containers; PutSuccess/DeleteSuccess/SetEACLSuccess emitted at one site exactly with the state change. Equality with a model over interleavings is not decided, hence 'other'. Added by the mutation sweep: delete removes exactly when the owner lookup found an owner, list/containersOf key selection, meta flag iff metaOnChain, loaders. Round 6: the id-keyed families (registry, owner index, eACL, alias, meta flag) are deleted only from Delete (registry/owner index also by the layout migration). Round 8: named arguments of resolvable cross-contract calls stand at the parameter their name is meant for.",
+         "Decides for all paths: registry key = 'x'||sha256(blob) with the blob stored; put reachable only with the tombstone read absent, delete writes it, nothing deletes tombstones (the migration is shown harmless by key-length facts); every id-keyed family a put can populate (x, o, eACL, nnsHasAlias, m) is removed by Delete with the same id on every effectful path, the NNS record cleanup is attempted whenever the alias is removed, alias entry and NNS record are written together; owner index component produced by the same function at put and delete time; getters return only for live containers; PutSuccess/DeleteSuccess/SetEACLSuccess emitted at one site exactly with the state change. Equality with a model over interleavings is not decided, hence 'other'. Added by the mutation sweep: delete removes exactly when the owner lookup found an owner, list/containersOf key selection, meta flag iff metaOnChain, loaders. Round 6: the id-keyed families (registry, owner index, eACL, alias, meta flag) are deleted only from Delete (registry/owner index also by the layout migration). Round 8: named arguments of resolvable cross-contract calls stand at the parameter their name is meant for. Round 10: SetEACL stores and announces on every normal return.",
          "§5 C04"),
  "C05": ("other",
          "term agreement and must-facts at the fee transfer call; loop-shape analysis; dominance; must-execute fact at the exits of the fee setter",
-         "Decides that the transferX amount is ContainerFee when no name is given and ContainerFee + ContainerAliasFee exactly when a name is given (same predicate as the alias registration), loop-invariant, one call per committee key with no early exit, payer = owner parsed from the blob, details = 0x10||id, registry write dominated by the loop exit, no exception-catching frame around the transfers; every normal return of netmap.SetConfig has stored the submitted value (a fee of 0 included); the debit/credit leg rules of balance's transfer helper are re-run (payer = payee included). Balance-boundary exactness is delegated to C01, hence 'other'. Round 7: every integer-to-bytes encoder of package deploy returns the output of neo-go's VM integer codec (writer/reader agreement for the settings written at deployment).",
+         "Decides that the transferX amount is ContainerFee when no name is given and ContainerFee + ContainerAliasFee exactly when a name is given (same predicate as the alias registration), loop-invariant, one call per committee key with no early exit, payer = owner parsed from the blob, details = 0x10||id, registry write dominated by the loop exit, no exception-catching frame around the transfers; every normal return of netmap.SetConfig has stored the submitted value (a fee of 0 included); the debit/credit leg rules of balance's transfer helper are re-run (payer = payee included). Balance-boundary exactness is delegated to C01, hence 'other'. Round 7: every integer-to-bytes encoder of package deploy returns the output of neo-go's VM integer codec (writer/reader agreement for the settings written at deployment). Round 10: a put that charged the fee has stored the container.",
          "§5 C05"),
  "C06": ("other",
          "must-facts at every effect of NewEpoch, write-set exclusion, term checks of published keys/values, loop-shape of the fan-out, membership-loop dominance of the subscription write",
-         "Decides for all paths: every effect of NewEpoch under stored epoch < epochNum; epoch key written only there with Param(epochNum); candidate families untouched; 'p'||BE4(epoch)||key -> value for every structured candidate, legacy snapshot = candidates filtered by State != Offline, tick height, one notification; one newEpoch call per stored subscriber in key order with no early exit and no catching frame, after publication; subscription written only after comparison with every stored subscriber, index = count. Model equality over histories is not decided, hence 'other'. Added by the mutation sweep: the converse of the epoch guard (own code faults only without the witness or for epochNum <= stored epoch). Round 8: fixed-width key encoders reverse the padded buffer.",
+         "Decides for all paths: every effect of NewEpoch under stored epoch < epochNum; epoch key written only there with Param(epochNum); candidate families untouched; 'p'||BE4(epoch)||key -> value for every structured candidate, legacy snapshot = candidates filtered by State != Offline, tick height, one notification; one newEpoch call per stored subscriber in key order with no early exit and no catching frame, after publication; subscription written only after comparison with every stored subscriber, index = count. Model equality over histories is not decided, hence 'other'. Added by the mutation sweep: the converse of the epoch guard (own code faults only without the witness or for epochNum <= stored epoch). Round 8: fixed-width key encoders reverse the padded buffer. Round 10: stored divisors of the tick are never written as 0 (shared with C08).",
          "§5 C06"),
  "C07": ("other",
          "term agreement witnessed key = storage key, must-facts at stores, exit-fact equivalences across both candidate representations, dispatch coverage",
@@ -41,15 +41,15 @@ P = {
          "§5 C07"),
  "C08": ("other",
          "divisor-non-zero rule over storage writers, sibling agreement of retention bounds as canonical linear terms, must-facts at ring index computations",
-         "Explicitly thin. Decides: every writer of the snapshot count stores a value established > 0 (it is a stored divisor of NewEpoch and Snapshot); NewEpoch drops epoch e-N under e > N and the drop loop of UpdateSnapshotCount covers exactly [cur-old+1, cur-new]; Snapshot establishes 0 <= diff < count; UpdateSnapshotCount leaves the ring index < the new count at every exit; listNodes(e) scans the fixed-width prefix NewEpoch writes (one structurally identified fixed-width encoder for writer, reader and dropper); every normal path of UpdateSnapshotCount that shrinks the window runs the drop loop (skip-edge rule). What the ring holds after sequences of resizes and ticks is a relation between run-time integers over time and is NOT decided. Added by the mutation sweep: Snapshot reads slot (current - diff + count) % count and faults only outside 0..count-1; NewEpoch advances the ring by one modulo count. Round 6 (ring-move): a single resize moves and frees exactly the slots of the in-place algorithm (grow: tail behind the current slot shifted up by new-old, downwards; shrink: tail shifted down by old-new, or the last new slots up to the current one moved to the front with current := new-1; freed slots exactly those holding no retained map), compared as canonical linear terms under the branch facts and the integer order axioms. Round 7: no iteration of a move loop goes round its Put.",
+         "Explicitly thin. Decides: every writer of the snapshot count stores a value established > 0 (it is a stored divisor of NewEpoch and Snapshot); NewEpoch drops epoch e-N under e > N and the drop loop of UpdateSnapshotCount covers exactly [cur-old+1, cur-new]; Snapshot establishes 0 <= diff < count; UpdateSnapshotCount leaves the ring index < the new count at every exit; listNodes(e) scans the fixed-width prefix NewEpoch writes (one structurally identified fixed-width encoder for writer, reader and dropper); every normal path of UpdateSnapshotCount that shrinks the window runs the drop loop (skip-edge rule). What the ring holds after sequences of resizes and ticks is a relation between run-time integers over time and is NOT decided. Added by the mutation sweep: Snapshot reads slot (current - diff + count) % count and faults only outside 0..count-1; NewEpoch advances the ring by one modulo count. Round 6 (ring-move): a single resize moves and frees exactly the slots of the in-place algorithm (grow: tail behind the current slot shifted up by new-old, downwards; shrink: tail shifted down by old-new, or the last new slots up to the current one moved to the front with current := new-1; freed slots exactly those holding no retained map), compared as canonical linear terms under the branch facts and the integer order axioms. Round 7: no iteration of a move loop goes round its Put. Round 10: fixed-width key encoders are total.",
          "§5 C08"),
  "C09": ("other",
          "abstract interpretation + term agreement at the refund call of NewEpoch and the lock record of Lock",
-         "Decides that Lock writes {0, until, from} at the lock account before transferring, that the NewEpoch refund is called only under Until != 0 and epochNum >= Until with from = scanned key, to = Parent, amount = Balance of the record loaded from that key, that the re-read by the debit leg cannot be preceded by another account store (so the record is deleted: no second unlock), that partial burns keep Until/Parent, that a successful transfer of an account's whole loaded balance deletes its record for every amount (0 included), that an iteration of the tick goes round the refund only for a non-account key, Until = 0 or epochNum < Until and the scan is left only on exhaustion (every visited expired lock is released), and that a fresh deploy subscribes to the tick. Timing over tick schedules and iterator semantics are assumed, hence 'other'. Round 8: the loader rules of C01 are decided here as well.",
+         "Decides that Lock writes {0, until, from} at the lock account before transferring, that the NewEpoch refund is called only under Until != 0 and epochNum >= Until with from = scanned key, to = Parent, amount = Balance of the record loaded from that key, that the re-read by the debit leg cannot be preceded by another account store (so the record is deleted: no second unlock), that partial burns keep Until/Parent, that a successful transfer of an account's whole loaded balance deletes its record for every amount (0 included), that an iteration of the tick goes round the refund only for a non-account key, Until = 0 or epochNum < Until and the scan is left only on exhaustion (every visited expired lock is released), and that a fresh deploy subscribes to the tick. Timing over tick schedules and iterator semantics are assumed, hence 'other'. Round 8: the loader rules of C01 are decided here as well. Round 10: stored layout of Account and upgrade rules of Balance decided here as well.",
          "§5 C09"),
  "C10": ("other",
          "per-path ledger balance over effect literals, single writers, term checks of stored records/notifications, boundary-operator agreement over all time/expiration comparisons, ordering of release before credit",
-         "Decides: supply/balances/token index written only by their helpers; at every exit of every ABI method every feasible combination of balance/supply updates is balanced; one Transfer(prev owner, new owner, 1, name) exactly with the record write; Transfer stores the loaded record with Owner := to, Admin := nil; Renew bounds (1..10 years, +365*24*3600*1000*years, ten-year cap for non-TLD); every direct comparison of block time with an Expiration puts t == expiration on the expired side; OwnerOf/Properties only for unexpired names with live parents; release of the old owner precedes the credit of the new one; Transfer and Register hand control to the receiver's callback only after all their stores. Availability over time and enumeration equality are not decided, hence 'other'. Added by the mutation sweep: Register (>= 2 labels, TLD present, parents alive, absent-or-expired at the store), RegisterTLD (one label, free, root marker written), Transfer/updateBalance presence and stored-or-zero start, parentExpired level loop, Renew converse.",
+         "Decides: supply/balances/token index written only by their helpers; at every exit of every ABI method every feasible combination of balance/supply updates is balanced; one Transfer(prev owner, new owner, 1, name) exactly with the record write; Transfer stores the loaded record with Owner := to, Admin := nil; Renew bounds (1..10 years, +365*24*3600*1000*years, ten-year cap for non-TLD); every direct comparison of block time with an Expiration puts t == expiration on the expired side; OwnerOf/Properties only for unexpired names with live parents; release of the old owner precedes the credit of the new one; Transfer and Register hand control to the receiver's callback only after all their stores. Availability over time and enumeration equality are not decided, hence 'other'. Added by the mutation sweep: Register (>= 2 labels, TLD present, parents alive, absent-or-expired at the store), RegisterTLD (one label, free, root marker written), Transfer/updateBalance presence and stored-or-zero start, parentExpired level loop, Renew converse. Round 10: parent-conflict helper polarity (shared with C12).",
          "§5 C10"),
  "C11": ("other",
          "abstract interpretation: gate entailment with subject agreement between the witnessed NameState and the token id keying the changed record",
@@ -61,7 +61,7 @@ P = {
          "§5 C12"),
  "C13": ("other",
          "AST/type lints specific to deploy/ with positive controls + SSA dominance and taint rules",
-         "Explicitly thin: structural necessary conditions only. Index-space consistency of re-sliced ranges; no map iteration order reaching a witness script; tryDeploy/tryTransfer computed as 'local index == 0' and dominating every deploying/funding submission; committee sorted before the index search; NNS stage first; no import that can persist local progress; encoder/decoder field tables of the shared transaction data and checksum helpers agree; name constants agree across deploy, rpc/nns, common and the contracts; a closure invalidating the shared transaction clears the signature cache validated against it; Transaction.Nonce/ValidUntilBlock depend on a chain height only through the window index (SSA taint); a typed constant a call is made with agrees with the one its error wrap names; a local that starts at a negative sentinel and is branched on is assigned somewhere (copy-paste contradiction rules with embedded positive controls). Added by the deploy mutation sweep: an error is not wrapped, logged or returned on the side where it was just found nil; the 'not found' test of a position-or-sentinel local keeps position 0 with the other positions; a search loop hands out its index on the equal side; no submission is reachable only through the 'still pending' side of the monitor's in-flight query; the shared-data matcher answers true only where every field compared equal; a signature is collected only on the true side of its verification and of the checksum split. Termination/convergence under schedules and crash points, fund and window arithmetic are NOT decided (would need execution or model checking). Round 6: in the signature-collection loop the failure side of a per-member error test always goes on with the next member. Round 7: a share-out helper calling f(index, amount) from two counting loops passes adjacent index ranges. Round 8: no Hash160/Hash256/PublicKey result is a raw convert.ToBytes(…). Round 9: gates of nns Update/RegisterTLD (shared with C03).",
+         "Explicitly thin: structural necessary conditions only. Index-space consistency of re-sliced ranges; no map iteration order reaching a witness script; tryDeploy/tryTransfer computed as 'local index == 0' and dominating every deploying/funding submission; committee sorted before the index search; NNS stage first; no import that can persist local progress; encoder/decoder field tables of the shared transaction data and checksum helpers agree; name constants agree across deploy, rpc/nns, common and the contracts; a closure invalidating the shared transaction clears the signature cache validated against it; Transaction.Nonce/ValidUntilBlock depend on a chain height only through the window index (SSA taint); a typed constant a call is made with agrees with the one its error wrap names; a local that starts at a negative sentinel and is branched on is assigned somewhere (copy-paste contradiction rules with embedded positive controls). Added by the deploy mutation sweep: an error is not wrapped, logged or returned on the side where it was just found nil; the 'not found' test of a position-or-sentinel local keeps position 0 with the other positions; a search loop hands out its index on the equal side; no submission is reachable only through the 'still pending' side of the monitor's in-flight query; the shared-data matcher answers true only where every field compared equal; a signature is collected only on the true side of its verification and of the checksum split. Termination/convergence under schedules and crash points, fund and window arithmetic are NOT decided (would need execution or model checking). Round 6: in the signature-collection loop the failure side of a per-member error test always goes on with the next member. Round 7: a share-out helper calling f(index, amount) from two counting loops passes adjacent index ranges. Round 8: no Hash160/Hash256/PublicKey result is a raw convert.ToBytes(…). Round 9: gates of nns Update/RegisterTLD (shared with C03). Round 10: gate of netmap.SubscribeForNewEpoch (shared with C03).",
          "§5 C13"),
  "C14": ("other",
          "typestate/loop-shape analysis of the counting loop, key-schema analysis of the roster families, must-facts at acceptance and notification",
@@ -73,11 +73,11 @@ P = {
          "§5 C15, §3.7"),
  "C16": ("other",
          "abstract interpretation of every Update and of every _deploy with isUpdate = true: gate entailment, version-bound facts at every effect and exit, write-set inclusion in the migration table with per-entry version guards, move/re-visit rules",
-         "Decides: all 11 Update methods call management.update only under the documented majority (the NeoFS Alphabet designated for the next block for neofs/processing) with (script, manifest, data + Version); every _deploy(update) establishes PrevVersion <= v < Version at every effect and exit for v = last element of data; its write set is within the documented migration table, each step under its version guard and gone round only when the stored version is already at or above the recorded layout-change version (skip-edge rule), no fresh-deploy initialisation reachable; index-keyed in-place rewrites run over the stored count; migrations are whole moves selected by key length and re-visit safe. Read-API preservation for arbitrary prior storages is not decided, hence 'other'. Added by the mutation sweep: every documented migration step above PrevVersion is reachable; migration loops end only on exhaustion. Round 6: Version and PrevVersion are composed from disjoint declared components with equal weights, none left out. Round 7: the Vote/TryPurgeVotes window agreement (shared with C17) is decided here as well.",
+         "Decides: all 11 Update methods call management.update only under the documented majority (the NeoFS Alphabet designated for the next block for neofs/processing) with (script, manifest, data + Version); every _deploy(update) establishes PrevVersion <= v < Version at every effect and exit for v = last element of data; its write set is within the documented migration table, each step under its version guard and gone round only when the stored version is already at or above the recorded layout-change version (skip-edge rule), no fresh-deploy initialisation reachable; index-keyed in-place rewrites run over the stored count; migrations are whole moves selected by key length and re-visit safe. Read-API preservation for arbitrary prior storages is not decided, hence 'other'. Added by the mutation sweep: every documented migration step above PrevVersion is reachable; migration loops end only on exhaustion. Round 6: Version and PrevVersion are composed from disjoint declared components with equal weights, none left out. Round 7: the Vote/TryPurgeVotes window agreement (shared with C17) is decided here as well. Round 10: every selected item is migrated; declared struct layouts equal the recorded layout of stored data.",
          "§5 C16, App. C"),
  "C17": ("other",
          "must-facts at the vote call and action effects, exit-fact exclusion on the quiet return, operator-normalised boundary agreement of the 20-block window, term check of the refreshed ballot, membership-loop dominance of the voter insertion",
-         "Decides for cheque/alphabetUpdate/setConfig/innerRingCandidateRemove without Notary: voter established non-empty and the witnessed element of the stored list; action only under not(n < floor(2 len(K)/3)+1) over that same list, quiet return executes no action, RemoveVotes(same id) before the action; Vote and TryPurgeVotes use the same predicate gap > 20; a counted vote stores {id, voters+from, current height}; voter appended only after comparison with every recorded voter of the ballot with the same id. Timing over block schedules is not decided, hence 'other'. Added by the mutation sweep: actions fire at every non-quiet return; sides of the window/found tests in Vote, TryPurgeVotes, RemoveVotes index; loaders. Round 6: the ballot id handed to Vote may depend on the decision id of the call (SSA backward slice).",
+         "Decides for cheque/alphabetUpdate/setConfig/innerRingCandidateRemove without Notary: voter established non-empty and the witnessed element of the stored list; action only under not(n < floor(2 len(K)/3)+1) over that same list, quiet return executes no action, RemoveVotes(same id) before the action; Vote and TryPurgeVotes use the same predicate gap > 20; a counted vote stores {id, voters+from, current height}; voter appended only after comparison with every recorded voter of the ballot with the same id. Timing over block schedules is not decided, hence 'other'. Added by the mutation sweep: actions fire at every non-quiet return; sides of the window/found tests in Vote, TryPurgeVotes, RemoveVotes index; loaders. Round 6: the ballot id handed to Vote may depend on the decision id of the call (SSA backward slice). Round 10: stored layout of common.Ballot.",
          "§5 C17"),
  "C18": ("other",
          "must-facts: validation precedes state, dispatch coverage of record types, numeric limits at the accepting exits of the validators, digit fact before every decimal Atoi",
